@@ -682,8 +682,12 @@ func cmdRun(args []string) {
 	// reach: statements / functions of the property's code that simulated threads actually executed
 	sitesTotal, sitesHit := 0, 0
 	fnHit := map[string]bool{}
+	var stmtsNever []string
 	for name, hit := range tot.SitesHit {
 		sitesTotal++
+		if !hit {
+			stmtsNever = append(stmtsNever, name)
+		}
 		f := strings.Fields(name)
 		fn := name
 		if len(f) >= 2 {
@@ -703,6 +707,7 @@ func cmdRun(args []string) {
 		}
 	}
 	sort.Strings(neverReached)
+	sort.Strings(stmtsNever)
 	ev := map[string]interface{}{
 		"property_id": *prop, "tier": *tier, "seed": seed, "level": level, "wall_s": wallS, "violations": newViolations,
 		"assumptions": append([]string{"statement-granular, sequentially consistent interleavings (DESIGN.md §7)",
@@ -716,7 +721,7 @@ func cmdRun(args []string) {
 			"run_end_reasons": tot.Reasons, "components_real": meta.Real, "components_stub": meta.Stub,
 			"determinism_selftest_seeds_x_processes": fmt.Sprintf("%d x 3 (GOMAXPROCS 1/4/16), identical event-log hashes", detSeeds),
 			"code_reach": map[string]interface{}{"instrumented_statements_in_scope": sitesTotal, "statements_executed_by_simulated_threads": sitesHit,
-				"functions_in_scope": len(fnHit), "functions_never_reached": neverReached},
+				"functions_in_scope": len(fnHit), "functions_never_reached": neverReached, "statements_never_executed": stmtsNever},
 			"worker_processes": *workers, "worker_process_restarts_for_memory": len(sigFiles) - *workers, "build_s": buildS, "search_s": searchS, "tree": treeID(),
 		},
 	}
